@@ -42,9 +42,20 @@ namespace vc
     int  elem_serial(const void* self);
 
     // ---- instrumented element type -----------------------------------------------------------
-    template <std::size_t Size, std::size_t Align>
+    // NoThrow = true: constructors are noexcept (the helpers take their "cannot throw" path, e.g. the
+    // construct(std::true_type, ...) overload behind allocate_unique<T[]>); such an element never throws,
+    // whatever throw position the script asks for
+    void elem_construct_nt(const void* self, const char* kind, const void* src, std::size_t sz) noexcept;
+    template <std::size_t Size, std::size_t Align, bool NoThrow = false>
     struct Elem
     {
+        static void note(const void* self, const char* kind, const void* src) noexcept(NoThrow)
+        {
+            if (NoThrow)
+                elem_construct_nt(self, kind, src, Size);
+            else
+                elem_construct(self, kind, src, Size);
+        }
         alignas(Align) unsigned char v[Size];
 
         // the element carries its own integrity mark: a destructor that runs after the storage was given
@@ -62,30 +73,30 @@ namespace vc
             return Size < 2 || v[Size - 1] == static_cast<unsigned char>(c ^ 0x5A);
         }
 
-        Elem() : v{}
+        Elem() noexcept(NoThrow) : v{}
         {
-            elem_construct(this, "default", nullptr, Size);
+            note(this, "default", nullptr);
             v[0] = 0x11;
             seal();
         }
-        explicit Elem(int val) : v{}
+        explicit Elem(int val) noexcept(NoThrow) : v{}
         {
-            elem_construct(this, "value", nullptr, Size);
+            note(this, "value", nullptr);
             v[0] = static_cast<unsigned char>(val & 0x7f);
             // keep clear of values whose moved-from mark (| 0x80) would equal a debug fill pattern
             if (v[0] == 0x7B || v[0] == 0x5D || v[0] == 0x4D || v[0] == 0x6D || v[0] == 0x7D || v[0] == 0x2B)
                 v[0] ^= 0x01;
             seal();
         }
-        Elem(const Elem& o) : v{}
+        Elem(const Elem& o) noexcept(NoThrow) : v{}
         {
-            elem_construct(this, "copy", &o, Size);
+            note(this, "copy", &o);
             v[0] = o.v[0];
             seal();
         }
-        Elem(Elem&& o) : v{} // deliberately not noexcept: a move may fail too
+        Elem(Elem&& o) noexcept(NoThrow) : v{} // (NoThrow = false) deliberately not noexcept: a move may fail too
         {
-            elem_construct(this, "move", &o, Size);
+            note(this, "move", &o);
             v[0] = o.v[0];
             seal();
             o.v[0] = static_cast<unsigned char>(o.v[0] | 0x80);
@@ -281,5 +292,6 @@ namespace vc
     ITyped* make_typed_e8();
     ITyped* make_typed_e12();
     ITyped* make_typed_e16();
+    ITyped* make_typed_e8n();
 } // namespace vc
 #endif
